@@ -99,6 +99,10 @@ func VerifHolding() {
 		// heights of held batches are non-decreasing (chain order)
 		if i > 0 {
 			vrt.Assume(h >= held[i-1].height)
+			// two held entries are two different entries: byte-identical content at one height would be
+			// one entry and its replay (the transaction-block harness's subject), and the real entry
+			// hash - a function of the bytes - would coincide
+			vrt.Assume(!(h == held[i-1].height && hv.dst == held[i-1].dst && hv.amt == held[i-1].amt))
 		}
 		e := vrtSignedConversion(hv.hash, blockTime+int64(h)*600, hv.amt, src, hv.dst, false)
 		hv.hash = e.Hash
